@@ -188,14 +188,23 @@ def oracle(ctx, hints, broken):
                 if sm is None and Z < O:
                     continue                            # singular without measurement error
                 n += 1
-                v = check_ll(e, Sigma.copy(), sm, nr.normal(size=(Tobs, O)))
+                Yd = nr.normal(size=(Tobs, O))
+                v = check_ll(e, Sigma.copy(), sm, Yd)
                 if v:
                     C.push(viol, v)
+                if k % 5 == 0:            # the same problem in other units (second moments down to 1e-10): the density is exact at every scale
+                    for c in (1e-2, 1e-4, 1e-5):
+                        n += 1
+                        v = check_ll(e, Sigma * c * c, None if sm is None else sm * c, Yd * c)
+                        if v:
+                            v['signature'] = dict(v['signature'], scale='small')
+                            v['input'] = dict(v['input'], units_scale=c)
+                            C.push(viol, v)
         if len(viol) > 200:
             break
     return dict(evaluations=n, violations=viol,
                 rule='direct O(T^2) autocovariance sums (argument purity and repeatability included); dense block-Toeplitz matrix + slogdet/solve '
-                     'Gaussian density for Tobs in {1, T-1, T, T+2, 2T}, with/without measurement error')
+                     'Gaussian density for Tobs in {1, T-1, T, T+2, 2T}, with/without measurement error, also after rescaling the units by 1e-2, 1e-4, 1e-5')
 
 
 def replay(rp):
